@@ -303,6 +303,7 @@ fn peval(req: &J) -> J {
         Err(e) => return json!({"parse_error": format!("{e}")}),
     };
     let exts = Extensions::all_available();
+    let uid = |s: &str| -> EntityUID { s.parse().unwrap() };
     let mut entities = match req.get("entities") {
         Some(j) if !j.is_null() => {
             let parser: EntityJsonParser<'_, '_, NoEntitiesSchema> = EntityJsonParser::new(None, exts, TCComputation::ComputeNow);
@@ -316,7 +317,28 @@ fn peval(req: &J) -> J {
     if req["partial"].as_bool().unwrap_or(false) {
         entities = entities.partial();
     }
-    let uid = |s: &str| -> EntityUID { s.parse().unwrap() };
+    // optional store edit AFTER the store was made partial (the mode must survive it)
+    match req["edit"].as_str().unwrap_or("") {
+        "remove" => {
+            entities = match entities.remove_entities(vec![uid(r#"User::"nobody""#)], TCComputation::ComputeNow) {
+                Ok(e) => e,
+                Err(e) => return json!({"input_error": e.to_string()}),
+            }
+        }
+        "add" | "upsert" => {
+            let e = std::sync::Arc::new(cedar_policy_core::ast::Entity::with_uid(uid(r#"User::"extra""#)));
+            let r = if req["edit"] == "add" {
+                entities.add_entities(vec![e], None::<&NoEntitiesSchema>, TCComputation::ComputeNow, exts)
+            } else {
+                entities.upsert_entities(vec![e], None::<&NoEntitiesSchema>, TCComputation::ComputeNow, exts)
+            };
+            entities = match r {
+                Ok(e) => e,
+                Err(e) => return json!({"input_error": e.to_string()}),
+            }
+        }
+        _ => {}
+    }
     let q = match Request::new(
         (uid(r#"User::"alice""#), None),
         (uid(r#"Action::"view""#), None),
